@@ -127,6 +127,8 @@ pub struct Master {
     pub kind: MasterKind,
     pub info: Info,
     /// (first, second) -> value; names starting with `public.kern` are groups
+    /// (serialised as a list of entries: JSON maps cannot have tuple keys)
+    #[serde(with = "pair_map")]
     pub kerning: BTreeMap<(String, String), f64>,
     pub groups: BTreeMap<String, Vec<String>>,
 }
@@ -359,6 +361,15 @@ impl Design {
         let path = dir.join("design.designspace");
         std::fs::write(&path, self.designspace_xml())?;
         Ok(path)
+    }
+
+    /// Writes the design in its natural container: a lone UFO when there are no axes, else a designspace.
+    pub fn write_source(&self, dir: &Path) -> std::io::Result<PathBuf> {
+        if self.axes.is_empty() {
+            self.write_single_ufo(dir)
+        } else {
+            self.write_designspace(dir)
+        }
     }
 
     /// Writes the default master alone as `<dir>/font.ufo` (static build). Returns the UFO path.
@@ -728,4 +739,19 @@ pub fn num(v: f64) -> String {
 /// OpenType rounding as fontc/fontTools `otRound`: floor(v + 0.5)
 pub fn ot_round(v: f64) -> f64 {
     (v + 0.5).floor()
+}
+
+/// serde adapter: `BTreeMap<(String, String), f64>` as a list of `((a, b), v)` entries, so that a
+/// `Design` can be embedded in JSON replay files
+mod pair_map {
+    use serde::{Deserialize, Deserializer, Serialize, Serializer};
+    use std::collections::BTreeMap;
+
+    pub fn serialize<S: Serializer>(m: &BTreeMap<(String, String), f64>, s: S) -> Result<S::Ok, S::Error> {
+        m.iter().collect::<Vec<_>>().serialize(s)
+    }
+
+    pub fn deserialize<'de, D: Deserializer<'de>>(d: D) -> Result<BTreeMap<(String, String), f64>, D::Error> {
+        Ok(Vec::<((String, String), f64)>::deserialize(d)?.into_iter().collect())
+    }
 }
